@@ -464,6 +464,13 @@ def st_table_case(draw, max_records=40, allow_dict=True, allow_enum=True, allow_
     kind = draw(st.sampled_from(kinds))
     if kind == "tuple_nofields":
         fields = ["col_%d" % (i + 1) for i in range(nf)]
+    elif draw(st.integers(0, 5)) == 0:
+        # field names that coincide with attribute names used inside the package
+        odd = draw(st.permutations(["ch_text", "value", "name", "width", "text", "fmt", "records", "title"]))
+        k = draw(st.integers(0, nf - 1))
+        fields[k] = odd[0]
+        if nf > 1 and draw(st.booleans()):
+            fields[(k + 1) % nf] = odd[1]
     enums = {}
     if allow_enum and kind != "tuple_nofields":
         for fn in fields:
